@@ -13,7 +13,7 @@ from .common import (Case, HELD, VIOLATED, INCONCLUSIVE, TERM, bad_outcome, diag
 ID = "C19"
 LEVEL = "fault_enumeration"
 BUILDS = ["rel"]
-BUDGET_S = {"quick": 150, "thorough": 2400}
+BUDGET_S = {"quick": 600, "thorough": 2400}
 RULE = ("1-12 AI blocks over 1-3 files; conditions and contents over quotes, backslashes, tabs, Unicode, emoji, JSON-looking "
         "text; optional check-ai-pattern; replies from {OK, ok, Ok., oK.} (no diagnostic) and a family of other texts incl. "
         "near misses (`OK!`, `OK..`, `Okay`, `O K`, multi-line, quoted, Unicode) that must be quoted verbatim in exactly one "
